@@ -65,6 +65,9 @@ func gen(g *mon.Gen) {
 					if !exc && size == 0 && (client != clientx.Serial || g.Thorough()) {
 						g.Emit(&Case{Client: client, FC: fc, Mode: "session", Seed: rng.Int63()})
 					}
+					if !exc && size == 0 && client != clientx.TCP && fc <= 4 {
+						g.Emit(&Case{Client: client, FC: fc, Mode: "crc-lookalike", Seed: rng.Int63()})
+					}
 				}
 			}
 		}
@@ -321,15 +324,48 @@ func run(ci any, r *mon.Rec) {
 				j.schedule(xport.Cuts(L, []int{a, b}, (a+b)%2), mon.Mix(5, uint64(a), uint64(b)))
 			}
 		}
+	case "crc-lookalike":
+		// hostile payload: a normal RTU reply whose first two data bytes equal the CRC of its first three bytes, so its
+		// 5-byte prefix looks like a CRC-consistent frame; every cut (the interesting one is after byte 5)
+		unit := libx.U8(rng)
+		q := specref.Req{FC: c.FC, Unit: unit, Addr: libx.U16(rng), Qty: 1}
+		if c.FC <= 2 {
+			q.Qty = 9 + uint16(rng.Intn(8)) // two data bytes
+		}
+		rq, err := libx.NewRequest(specref.RTU, q)
+		if err != nil {
+			return
+		}
+		crc := specref.CRC([]byte{unit, c.FC, 2})
+		rep := specref.Resp{FC: c.FC, Unit: unit, Data: []byte{byte(crc), byte(crc >> 8)}}.Encode(specref.RTU)
+		j2 := &judge{c: c, r: r, req: rq, q: q, reply: rep}
+		j2.schedule(xport.Cuts(len(rep), nil, 0), 70)
+		for k := 1; k < len(rep); k++ {
+			for _, to := range []int{0, 1} {
+				j2.schedule(xport.Cuts(len(rep), []int{k}, to), mon.Mix(71, uint64(k), uint64(to)))
+			}
+		}
+		j2.schedule(xport.Cuts(len(rep), []int{3, 5}, 0), 72)
+		j2.schedule(xport.Cuts(len(rep), []int{1, 5}, 1), 73)
 	case "session":
 		// several exchanges on ONE client; every response is kept and re-verified after the later calls
-		sess := clientx.NewSession(c.Client, clientx.Options{ReadTimeout: 2 * time.Second})
+		// half of the sessions use a short total read timeout and idle longer than that between calls: time spent idle must
+		// not count against the next call
+		rtS, idle := 2*time.Second, time.Duration(0)
+		if c.Seed%2 == 0 {
+			rtS, idle = 250*time.Millisecond, 350*time.Millisecond // generous: a correct client needs microseconds per exchange
+		}
+		sess := clientx.NewSession(c.Client, clientx.Options{ReadTimeout: rtS})
 		type kept struct {
 			resp packet.Response
 			want []byte
 		}
 		var keep []kept
-		for i := 0; i < 6; i++ {
+		ncalls := 6
+		if idle > 0 {
+			ncalls = 3
+		}
+		for i := 0; i < ncalls; i++ {
 			rq, _, rep, err := Build(rng, c.Client, c.FC, rng.Intn(3), false)
 			if err != nil || rq.ExpectedResponseLength() > len(rep) {
 				continue // FC23: every exchange times out (known finding), not a session matter
@@ -341,10 +377,21 @@ func run(ci any, r *mon.Rec) {
 			if e := rq.ExpectedResponseLength(); e < len(rep) {
 				cuts = nil // short formulas only work for unfragmented replies (known finding)
 			}
+			if i > 0 && idle > 0 {
+				time.Sleep(idle)
+			}
 			out := sess.Do(rq, xport.Script{Reply: rep, Steps: xport.Cuts(len(rep), cuts, 0), Tail: "deadline"})
 			r.Eval(1)
 			if out.Hung || out.Panic != "" || out.Err != nil || libx.IsNilValue(out.Resp) {
-				r.Violate(c, "session-call-fails", mon.Attrs{"client": clientx.KindName(c.Client), "fc": int(c.FC)}, fmt.Sprintf("call %d of a session: err=%v panic=%q hung=%v", i, out.Err, out.Panic, out.Hung))
+				reads := 0
+				for _, e := range out.Events {
+					if e.Op == "read" {
+						reads++
+					}
+				}
+				// verdict from the transport log: the whole reply was available in the first read(s); a failure with fewer
+				// reads than needed to fetch it means the client gave up without looking
+				r.Violate(c, "session-call-fails", mon.Attrs{"client": clientx.KindName(c.Client), "fc": int(c.FC), "idle_gap": idle > 0}, fmt.Sprintf("call %d of a session (idle %v before it, read timeout %v): err=%v panic=%q hung=%v after %d transport reads, %d of %d reply bytes handed over", i, idle, rtS, out.Err, out.Panic, out.Hung, reads, out.Conn.Delivered(), len(rep)))
 				break
 			}
 			keep = append(keep, kept{out.Resp, rep})
